@@ -97,18 +97,37 @@ def stat(c):
     Integration.timescale_factor = 1e-3
     return res
 
+def drv(c):
+    """a few steps of Integration.one_pop on an arbitrary density (constants / functions of time), for the
+    entry-by-entry comparison with the scheme model (Model/Scheme.v, Model/NDSweep.v)"""
+    Integration.timescale_factor = c['tf']
+    xx = np.array(c['grid'], dtype=float)
+    phi = np.array(c['phi'], dtype=float)
+    p = c['pops'][0]
+    fn = c['as_func']
+    def par(v, s=0.0):
+        if fn is None:
+            return v
+        if fn == 'const':
+            return (lambda t, v=v: v)
+        return (lambda t, v=v, s=s: v + s * t)
+    res = Integration.one_pop(phi, xx, c['T'], nu=par(p['nu'], p.get('nu_slope', 0.0)), gamma=par(p['gamma']), h=par(p['h']),
+                              theta0=par(c['theta0'], c.get('theta_slope', 0.0)), beta=par(p['beta']))
+    Integration.timescale_factor = 1e-3
+    return {'res': fl(res)}
+
 def one(c):
     rec = {'id': c['id']}
     try:
-        rec.update({'dens': dens, 'hist': hist, 'stat': stat}[c['kind']](c))
+        rec.update({'dens': dens, 'hist': hist, 'stat': stat, 'drv': drv}[c['kind']](c))
     except Exception as e:
         rec['error'] = type(e).__name__ + ': ' + str(e)[:300]
     return rec
 
 def main():
     cases = json.load(sys.stdin)
-    heavy = [c for c in cases if c['kind'] != 'dens']
-    light = [c for c in cases if c['kind'] == 'dens']
+    heavy = [c for c in cases if c['kind'] not in ('dens', 'drv')]
+    light = [c for c in cases if c['kind'] in ('dens', 'drv')]
     out = [one(c) for c in light]
     if len(heavy) > 3:
         import multiprocessing as mp
